@@ -7,6 +7,7 @@ Confirmed changes are stored as /verif/seeded/<prop>-<n>/{patch.diff,demo.rs,met
 import json, os, re, subprocess, sys, shutil
 out_dir, prop = sys.argv[1], sys.argv[2]
 idxs = sys.argv[3:] or ['1', '2']
+FEAT = {'C15': ' --features async-vfs', 'C18': ' --features embedded-fs'}.get(prop, '')
 V = '/verif'
 WT = '/tmp/sv_worktree'
 ENV = dict(os.environ, CARGO_TARGET_DIR='/tmp/sv_target', CARGO_NET_OFFLINE='true')
@@ -27,14 +28,14 @@ for n in idxs:
     os.makedirs(os.path.join(WT, 'tests'), exist_ok=True)
     os.makedirs(os.path.join(WT, 'target'), exist_ok=True)
     shutil.copy(demo, os.path.join(WT, 'tests', 'seed_demo.rs'))
-    rc0, o0 = sh('cargo test --offline --test seed_demo 2>&1 | tail -15')
+    rc0, o0 = sh('cargo test --offline%s --test seed_demo 2>&1 | tail -15' % FEAT)
     pass0 = 'test result: ok' in o0
     rc, o = sh('git apply %s 2>&1 || (git apply --3way %s 2>&1 && ! git diff --name-only --diff-filter=U | grep -q .)' % (patch, patch))
     applied = rc == 0
     rc1, o1 = sh('cargo test --offline --lib 2>&1 | tail -5')
     m = re.search(r'test result: (\w+)\. (\d+) passed; (\d+) failed', o1)
     suite = (m.group(1), int(m.group(2)), int(m.group(3))) if m else ('?', 0, 0)
-    rc2, o2 = sh('cargo test --offline --test seed_demo 2>&1 | tail -15')
+    rc2, o2 = sh('cargo test --offline%s --test seed_demo 2>&1 | tail -15' % FEAT)
     fail2 = 'test result: FAILED' in o2 or 'panicked' in o2
     hang = False
     ok = applied and pass0 and suite[0] == 'ok' and suite[1] >= 397 and fail2
